@@ -468,6 +468,16 @@ class Engine:
                     p, child = fr.parents.get(id(p)), p
         return False
 
+    def return_matches(self, fr, line, key):
+        """'return@text:<snippet>': the return statement at `line` mentions the snippet;  'return@under:<snippet>': it sits under an `if` whose test mentions it.
+        Keys of this form do not shift when another return is inserted before them (unlike return#k)."""
+        kind, _, snip = key[len('return@'):].partition(':')
+        if kind == 'under':
+            return self.lexically_under(fr, line, [snip])
+        if kind == 'text' and fr.fi is not None:
+            return any(isinstance(n, ast.Return) and n.lineno == line and snip in ast.unparse(n) for n in ast.walk(fr.fi.node))
+        return False
+
     def cover(self, st, label, tags, line=0):
         fr = self.frames[0]
         if fr.contract is not None and (label in fr.contract.dead or (label.startswith('return#') and self.lexically_under(fr, line, fr.contract.dead_under))):
@@ -526,10 +536,11 @@ class Engine:
             self.cover(x, lab, con.tags, ln)
             res = x.env.get('__ret__', NONE)
             x.env['result'] = res
-            for c in con.asserts.get('return', []) + con.asserts.get(lab, []):
+            akeys = [k2 for k2 in list(con.asserts) + list(con.ghost_return_at) if k2.startswith('return@') and self.return_matches(fr, ln, k2)]
+            for c in con.asserts.get('return', []) + con.asserts.get(lab, []) + [c2 for k2 in akeys for c2 in con.asserts.get(k2, [])]:
                 v = self.eval_clause(c, x, fr.old)
                 self.oblige(x, v, 'assert', c.label, c.tags, ln, site=lab)
-            for path, ex in con.ghost_return + con.ghost_return_at.get(lab, []):
+            for path, ex in con.ghost_return + con.ghost_return_at.get(lab, []) + [g2 for k2 in akeys for g2 in con.ghost_return_at.get(k2, [])]:
                 self.ghost_assign(path, ex, x, fr.old)
             self.check_post(con, x, fr.old, res, lab, ln)
             self.check_frame(con, x, fr.old, lab, ln)
@@ -558,6 +569,8 @@ class Engine:
             return k.isdigit() and (short, int(k)) in calls
 
         def ret_ok(lab):
+            if lab.startswith('return@'):
+                return any(isinstance(n, ast.Return) and self.return_matches(fr, n.lineno, lab) for n in ast.walk(fi.node))
             return lab == 'return' or (lab.startswith('return#') and lab[7:].isdigit() and int(lab[7:]) <= nret)
         for key in con.loops:
             if key not in loops:
